@@ -36,7 +36,7 @@ func init() {
 			"distinct_nontrivial = cases on which the decoder returned success (err == nil, decoding from the cap == len backing), not counting mutations that reproduce their seed (those are counted once, in a:corpus).",
 		Assume: []string{
 			"the frames of corpus G (enum/decode/corpus.go) follow DESIGN Appendix C; they are built without calling the library",
-			"termination oracle: a hang class is reported only after its example case ran for 5 s without returning in two separate single-case processes, and it is named after the innermost library function common to all stack samples taken there. The other members of the class are counted by the bulk workers: a decoder call that burns more than C01_TRIP_US (default 200) microseconds of thread CPU time has the access to its input revoked (mprotect; the next read faults and the fault is recovered as a panic); the case counts as a hang (and is skipped) if that happens again on an immediate second run with a function already confirmed to loop on the stack, or on a second run with 25 times the allowance when no such function is on the stack (the parent then confirms that case in single-case processes before anything is counted). A worker silent for 20 s is killed, the case it was on (read from its progress file) is confirmed the same way and skipped",
+			"termination oracle: a hang class is reported only after its example case ran for 5 s without returning in two separate single-case processes, and it is named after the innermost library function common to all stack samples taken there. The other members of the class are counted by the bulk workers: a decoder call that burns more than C01_TRIP_US (default 200) microseconds of thread CPU time has the access to its input revoked (mprotect; the next read faults and the fault is recovered as a panic); the case counts as a hang (and is skipped) if that happens again on a second run with 5 times the allowance and a function already confirmed to loop on the stack, or on a second run with 25 times the allowance when no such function is on the stack (the parent then confirms that case in single-case processes before anything is counted). A worker silent for 20 s is killed, the case it was on (read from its progress file) is confirmed the same way and skipped",
 			"part (d) of the design (histories through the live socket receivers) is checked by the model-checking engine, not here",
 			"the decoders do not retain references to their input across calls (each case overwrites the shared input arena)",
 		},
